@@ -18,6 +18,43 @@ def resultSpec (hash : Bytes) (level : Nat) (res : Bytes) : Option String :=
     else if !isOKb (verifyWith Hreal Gen.policy_internal s ⟨some hash, 0⟩) then some "returned-signature-fails-internal-verification-for-the-requested-hash"
     else none
 
+/-- the request handed to the transport: hash, level, login id and first request id as asked for -/
+def qCase (q hashHex level ver loginHex label out : String) : String :=
+
+  let ows := words out
+  let st := ows.headD "?"
+  match ofHex hashHex, level.toNat?, ver.toNat?, ofHex loginHex with
+  | some hash, some lv, some v, some login =>
+    let expectSt := if lv > 0xff then St.INVALID_ARGUMENT else if !trusted (hash.headD 0).toNat then UNTRUSTED_HASH_ALGORITHM else 0
+    if st != s!"Q{expectSt}" then
+      (if expectSt != 0 && st == "Q0" then s!"specfail {q}:{label} request-sent-although-{label}" else s!"diff {q}:{label}:{st} model=Q{expectSt}")
+    else if expectSt != 0 then s!"ok {q}:{label}:{st}"
+    else match (ows.getD 1 "-" |> ofHex) with
+      | none => "skip bad-request-hex"
+      | some rq =>
+        match parseAggrPdu cfg v rq with
+        | .error e => s!"specfail {q}:{label} request-does-not-parse-{e}"
+        | .ok pdu =>
+          let root := PduMac.rootTagOf rq
+          let tn := PduMac.pduTable .aggr root
+          let reqTag := if root = 0x200 then 0x201 else 0x02
+          let hdr := PduMac.fieldOf cfg.tabs tn 0x01 pdu
+          let loginOk := match hdr with
+            | some (.obj hs) => vBytes (fld cfg.tabs "KSI_Header" 0x01 hs) == some (login ++ [0])
+            | _ => false
+          match PduMac.fieldOf cfg.tabs tn reqTag pdu with
+          | some (.obj fs) =>
+            let rn := if root = 0x200 then "KSI_AggregationReq" else "KSI_AggregationReq_v2"
+            let h := vBytes (fld cfg.tabs rn 0x02 fs)
+            let l := vInt (fld cfg.tabs rn 0x03 fs)
+            if h != some hash then s!"specfail {q}:{label} request-carries-another-hash"
+            else if l.getD 0 != lv then s!"specfail {q}:{label} request-carries-level-{l.getD 0}"
+            else if !loginOk then s!"specfail {q}:{label} request-carries-another-login-id"
+            else if (vInt (fld cfg.tabs rn 0x01 fs)) != some 1 then s!"specfail {q}:{label} first-request-id-is-not-1"
+            else s!"ok {q}:{label}:Q0:v{v}"
+          | _ => s!"specfail {q}:{label} request-has-no-request-payload"
+  | _, _, _, _ => "skip bad-args"
+
 def handle (inp out : String) : String :=
   match words inp with
   | "s" :: hashHex :: level :: ver :: keyHex :: replyHex :: rest =>
@@ -100,41 +137,9 @@ def handle (inp out : String) : String :=
         | .error _ => if g == "G0" then s!"diff as2:{label}:{g} model=refused" else s!"ok as2:{label}:{g}"
         | .ok _ => if g == "G0" then s!"ok as2:{label}:G0" else s!"diff as2:{label}:{g} model=G0"
     | _, _, _, _ => "skip bad-args"
-  | "q" :: hashHex :: level :: ver :: loginHex :: _key :: rest =>
-    let label := rest.headD "-"
-    let ows := words out
-    let st := ows.headD "?"
-    match ofHex hashHex, level.toNat?, ver.toNat?, ofHex loginHex with
-    | some hash, some lv, some v, some login =>
-      let expectSt := if lv > 0xff then St.INVALID_ARGUMENT else if !trusted (hash.headD 0).toNat then UNTRUSTED_HASH_ALGORITHM else 0
-      if st != s!"Q{expectSt}" then
-        (if expectSt != 0 && st == "Q0" then s!"specfail q:{label} request-sent-although-{label}" else s!"diff q:{label}:{st} model=Q{expectSt}")
-      else if expectSt != 0 then s!"ok q:{label}:{st}"
-      else match (ows.getD 1 "-" |> ofHex) with
-        | none => "skip bad-request-hex"
-        | some rq =>
-          match parseAggrPdu cfg v rq with
-          | .error e => s!"specfail q:{label} request-does-not-parse-{e}"
-          | .ok pdu =>
-            let root := PduMac.rootTagOf rq
-            let tn := PduMac.pduTable .aggr root
-            let reqTag := if root = 0x200 then 0x201 else 0x02
-            let hdr := PduMac.fieldOf cfg.tabs tn 0x01 pdu
-            let loginOk := match hdr with
-              | some (.obj hs) => vBytes (fld cfg.tabs "KSI_Header" 0x01 hs) == some (login ++ [0])
-              | _ => false
-            match PduMac.fieldOf cfg.tabs tn reqTag pdu with
-            | some (.obj fs) =>
-              let rn := if root = 0x200 then "KSI_AggregationReq" else "KSI_AggregationReq_v2"
-              let h := vBytes (fld cfg.tabs rn 0x02 fs)
-              let l := vInt (fld cfg.tabs rn 0x03 fs)
-              if h != some hash then s!"specfail q:{label} request-carries-another-hash"
-              else if l.getD 0 != lv then s!"specfail q:{label} request-carries-level-{l.getD 0}"
-              else if !loginOk then s!"specfail q:{label} request-carries-another-login-id"
-              else if (vInt (fld cfg.tabs rn 0x01 fs)) != some 1 then s!"specfail q:{label} first-request-id-is-not-1"
-              else s!"ok q:{label}:Q0:v{v}"
-            | _ => s!"specfail q:{label} request-has-no-request-payload"
-    | _, _, _, _ => "skip bad-args"
+  | "q2" :: hashHex :: level :: ver :: loginHex :: _ka :: _lb :: _kb :: rest => qCase "q2" hashHex level ver loginHex (rest.headD "-") out
+  | "qh" :: hashHex :: level :: _key :: rest => qCase "qh" hashHex level "2" "616e6f6e" (rest.headD "-") out
+  | "q" :: hashHex :: level :: ver :: loginHex :: _key :: rest => qCase "q" hashHex level ver loginHex (rest.headD "-") out
   | _ => "skip unknown-op"
 
 def main : IO Unit := runDriver handle
